@@ -270,7 +270,16 @@ func opXFind(f []string) string {
 		return "setup=err"
 	}
 	var o Obs
-	s, err := fileseq.FindSequenceOnDiskPad(filepath.Join(root, dn)+"/"+unhx(f[2]), styleOf(f[1]))
+	// style "1c" / "4c": the pattern has no directory part and is looked up in the working directory
+	pattern := filepath.Join(root, dn) + "/" + unhx(f[2])
+	if len(f[1]) > 1 && f[1][1] == 'c' {
+		if os.Chdir(filepath.Join(root, dn)) != nil {
+			return "setup=err"
+		}
+		defer os.Chdir("/")
+		pattern = unhx(f[2])
+	}
+	s, err := fileseq.FindSequenceOnDiskPad(pattern, styleOf(f[1][:1]))
 	if err != nil {
 		o.Add("err", "err")
 		return o.String()
@@ -484,6 +493,9 @@ func genXDir(r *Rand) string {
 	if len(keys) > 0 && r.Chance(2, 5) {
 		k := keys[r.Intn(len(keys))]
 		pads := []string{"#", "@", "@@@", "##", "%04d", "$F", "1-100#", "@@"}
+		if r.Chance(1, 4) {
+			style += "c" // looked up from inside the directory, the pattern has no directory part
+		}
 		return "x.find " + style + " " + hx(k.base+r.Pick(pads)+k.ext) + " " + entsString(ents) + dn
 	}
 	return "x.scan " + strconv.Itoa(r.Intn(4)) + " " + style + " " + entsString(ents) + dn
